@@ -30,6 +30,10 @@ type Step struct {
 	Src    string `json:"src,omitempty"`    // eval: forms; loadform: expression yielding the object; funcform: function name
 	Margin int    `json:"margin,omitempty"` // snapshot, loadform, funcform: *print-right-margin*
 	Path   string `json:"path,omitempty"`   // load, snapshot: file
+	// Again (snapshot): the session was saved to the same file before, when it still
+	// held a long variable and a function that are gone by now (the user saves,
+	// removes definitions, saves again): the file must hold the second save only.
+	Again bool `json:"again,omitempty"`
 }
 
 // Out is what a step produced.
@@ -101,6 +105,15 @@ func doStep(scope *slip.Scope, st Step) (out Out) {
 		}
 		out.Val = deepAll(res)
 	case "snapshot":
+		if st.Again {
+			pad := strings.Repeat("earlier save ", 60)
+			if _, err := evalForms(scope, fmt.Sprintf("(defvar *c19-earlier-pad* %q) (defun c19-earlier-zulu (a b) (list a b %q)) (snapshot %q) (makunbound '*c19-earlier-pad*) (fmakunbound 'c19-earlier-zulu)", pad, pad, st.Path)); err != nil {
+				err.Class = "harness"
+				err.Msg = "earlier save: " + err.Msg
+				out.Err = err
+				return
+			}
+		}
 		_, err := evalForms(scope, fmt.Sprintf("(let ((*print-right-margin* %d)) (snapshot %q))", st.Margin, st.Path))
 		if err != nil {
 			out.Err = err
